@@ -141,6 +141,8 @@ func decodeEntry(entry string, key, ver int16, stream []byte, budget time.Durati
 		return decodeSaslRaw(stream)
 	case "unmarshal":
 		return decodeUnmarshal(key, stream)
+	case "describegroups":
+		return decodeDescribeGroups(key, stream, budget)
 	case "transport", "transport-sasl0", "transport-sasl1":
 		return decodeTransport(entry, key, ver, stream, budget)
 	}
